@@ -10,10 +10,12 @@ NOTE = ("Trusted: Lean 4.33 kernel; axioms propext, Classical.choice, Quot.sound
         "the correspondence run (harness + driver JSON glue are trusted); theorems are about exact rational arithmetic, "
         "binary64 rounding is covered by tolerance/boundary comparators only; ")
 
+# only properties the lead has accepted (harness/reg/READY, one id per line) are claimed
+READY = set(open(os.path.join(HERE, "reg", "READY")).read().split())
 CLAIMED = {}
 for path in sorted(glob.glob(os.path.join(HERE, "reg", "C*.json"))):
     pid = os.path.basename(path)[:-5]
-    if os.path.exists(os.path.join(HERE, pid.lower() + ".py")):
+    if pid in READY and os.path.exists(os.path.join(HERE, pid.lower() + ".py")):
         d = json.load(open(path))
         if not d.get("note", "").startswith("Trusted:"):
             d["note"] = NOTE + d.get("note", "")
